@@ -46,6 +46,10 @@ class Report:
         self.rules = {}           # rule id -> one-line statement of the rule
         self.assumptions = []
         self.extra = {}
+        self.undecided = []       # (rule, where, why): sites whose shape the rule cannot judge; exit 2 unless a violation is reported
+
+    def cannot_decide(self, rule, where, why):
+        self.undecided.append((rule, where, why))
 
     def rule(self, rid, text):
         self.rules[rid] = text
@@ -144,8 +148,15 @@ def finish(rep, tier, seed, t0):
     ev = {'property_id': pid, 'tier': tier, 'seed': seed, 'level': rep.level, 'coverage': cov,
           'assumptions': rep.assumptions, 'wall_s': round(time.time() - t0, 2), 'violations': len(new)}
     os.makedirs(EVID, exist_ok=True)
+    ev['undecided'] = [{'rule': r, 'where': w, 'why': y} for r, w, y in rep.undecided]
     json.dump(ev, open(os.path.join(EVID, pid + '.json'), 'w'), indent=1, default=str)
-    return 1 if new else 0
+    if new:
+        return 1
+    if rep.undecided:
+        for r, w, y in rep.undecided:
+            print('ANALYSIS-BROKEN property=%s: %s: [%s] cannot decide: %s' % (pid, w, r, y))
+        return 2
+    return 0
 
 
 def where(fn_or_file, line=None):
